@@ -1029,11 +1029,72 @@ def aliased_inplace_probes(rng, tier, out):
                % (ctor, shape, dt), snippet)
 
 
+def call_history_probes(rng, tier, out):
+    """Call HISTORIES on ONE operator object (the plan is cached on it): every sequence of length <= 3 of
+    a = op(x), b = op(x, out=y), c = op(x, out=x); every call compared with numpy.fft (fix c5457f5)."""
+    shapes = [[8], [128], [3, 4]] if tier == 'quick' else [[4], [5], [30], [31], [128], [3, 4], [8, 8]]
+    hists = [''.join(h) for n in (1, 2, 3) for h in itertools.product('abc', repeat=n)]
+    for shape, sg, inv in itertools.product(shapes, ['-', '+'], [False, True]):
+        nd = len(shape)
+        ctor = ("odl.trafos.DiscreteFourierTransformInverse(sp, domain=sp, sign=%r, impl='pyfftw')" if inv
+                else "odl.trafos.DiscreteFourierTransform(sp, range=sp, sign=%r, impl='pyfftw')") % sg
+        for h in hists:
+            snippet = (_PRE + "import pyfftw\nsp = odl.uniform_discr(%r, %r, %r, dtype=complex)\n"
+                       "rs = np.random.RandomState(%d)\n"
+                       "def ref(a):\n"
+                       "    r = np.fft.fftn(a) if %r == '-' else np.fft.ifftn(a) * a.size\n"
+                       "    return r / a.size if %r else r\n"
+                       "pyfftw.forget_wisdom()\nop = %s\nerrs = []\n"
+                       "for kind in %r:\n"
+                       "    x0 = rs.randint(-4, 5, %r) + 1j * rs.randint(-4, 5, %r)\n"
+                       "    x = sp.element(x0.copy())\n"
+                       "    if kind == 'a':\n        res = op(x)\n"
+                       "    elif kind == 'b':\n        res = sp.element(); op(x, out=res)\n"
+                       "    else:\n        op(x, out=x); res = x\n"
+                       "    errs.append(float(np.abs(np.asarray(res) - ref(x0)).max() / (1 + np.abs(ref(x0)).max())))\n"
+                       "    if kind != 'c': errs.append(float(np.abs(np.asarray(x) - x0).max()))   # input untouched\n"
+                       "observed = errs; expected = 0.0\nok = max(errs) <= 1e-10\n"
+                       % ([0.0] * nd, [1.0] * nd, shape, rng.randint(0, 10 ** 6), sg, inv, ctor, h,
+                          tuple(shape), tuple(shape)))
+            _probe(out, 'dft-pyfftw-call-history',
+                   '%s on shape %s: call history %s (a = op(x), b = op(x, out=y), c = op(x, out=x)) equals numpy.fft '
+                   'at every step' % (ctor, shape, h), snippet)
+
+
+def hc_inverse_input_probes(rng, tier, out):
+    """The half-complex inverse leaves its input element alone and gives the same (right) result when the
+    same element is passed again; 1-d sizes where FFTW's c2r algorithms differ, and 2-d."""
+    sizes = [4, 17, 18, 22, 30, 31, 36, 64, 128] if tier == 'quick' else list(range(2, 70)) + [96, 100, 128, 200, 256, 512]
+    shapes = [[n] for n in sizes] + [[4, 6], [3, 18]]
+    for shape, impl, cont in itertools.product(shapes, ['numpy', 'pyfftw'], [False, True]):
+        nd = len(shape)
+        if cont and shape[-1] < 2:
+            continue
+        cls = 'FourierTransformInverse' if cont else 'DiscreteFourierTransformInverse'
+        snippet = (_PRE + "import pyfftw\npyfftw.forget_wisdom()\nsp = odl.uniform_discr(%r, %r, %r)\n"
+                   "fwd = odl.trafos.%s(sp, halfcomplex=True, impl='numpy')\n"
+                   "inv = odl.trafos.%s(sp, halfcomplex=True, sign='+', impl=%r)\n"
+                   "x0 = np.random.RandomState(%d).randint(-4, 5, %r).astype(float)\n"
+                   "y = inv.domain.element(np.asarray(fwd(x0))); y0 = np.asarray(y).copy()\n"
+                   "z1 = np.asarray(inv(y)).copy(); chg = float(np.abs(np.asarray(y) - y0).max())\n"
+                   "z2 = np.asarray(inv(y)).copy()\n"
+                   "observed = [chg, float(np.abs(z1 - x0).max()), float(np.abs(z2 - x0).max())]; expected = [0.0, 0.0, 0.0]\n"
+                   "ok = chg == 0.0 and max(observed[1:]) <= 1e-9 * (1 + np.abs(x0).max())\n"
+                   % ([0.0] * nd, [1.0] * nd, shape, cls.replace('Inverse', ''), cls, impl, rng.randint(0, 10 ** 6),
+                      tuple(shape)))
+        key = ('dft-inverse-hc-pyfftw-1d-destroys-input' if (impl == 'pyfftw' and nd == 1 and not cont)
+               else 'hc-inverse-input-unchanged-%s-%s' % (cls, impl))
+        _probe(out, key, '%s(halfcomplex=True, impl=%s) on shape %s: input element unchanged, second call on the same '
+               'element gives the same result' % (cls, impl, shape), snippet)
+
+
 def probes(rng, tier):
     C.setup_impl_path()
     out = []
     grid_probes(rng, tier, out)
     aliased_inplace_probes(rng, tier, out)
+    call_history_probes(rng, tier, out)
+    hc_inverse_input_probes(rng, tier, out)
     wavelet_axes_adjoint_probes(rng, tier, out)
     fourier_adjoint_probes(rng, tier, out)
     dft_probes(rng, tier, out)
